@@ -127,6 +127,16 @@ def run(spec, R):
                 continue
             R.count('rendered')
             ok = check_rendering(R, batch, fmt, lang, text, wit)
+            if len(batch) == 1 and len(batch[0]) >= 2:
+                # the flat call form: one sentence given as its n-best list; the same record numbering applies
+                try:
+                    flat = to_string(copy.deepcopy(batch)[0], format=fmt)
+                except Exception as e:
+                    R.violation(f'{fmt}:raises', f'to_string(<n-best list of one sentence>, format={fmt!r}) raised {e!r}', wit)
+                    continue
+                R.count('rendered-flat-form')
+                if flat != text:
+                    check_rendering(R, batch, fmt, lang, flat, dict(wit, call_form='flat n-best list of one sentence'))
             if ok and i == 0 and fmt in ('auto', 'prolog', 'deriv'):
                 R.sample({'lang': lang, 'format': fmt, 'output': text[:400]})
         if R.out_of_time():
